@@ -72,14 +72,17 @@ def recase(x, rng):
         if isinstance(v, dict):
             out = CaseInsensitiveOrderedDict()
             for k, w in v.items():
-                out[f(k)] = go(w)
+                out[f(k) if f(k).lower() == k.lower() else k] = go(w)
             return out
         if isinstance(v, list):
             return [go(w) for w in v]
         if isinstance(v, tuple):
             return tuple(go(w) for w in v)
         if isinstance(v, str):
-            return f(v)
+            # a re-spelling in another letter case only: for characters whose case mappings change the text ("ß" -> "SS", the
+            # ligatures, dotted capital I) upper-casing is not one — the lower-cased form the validator judges would differ
+            w = f(v)
+            return w if w.lower() == v.lower() else v
         return v
     return go(x)
 
